@@ -105,7 +105,8 @@ OUT_PRE = ATT_PRE + [
     (r'attr\.access\( read, data\.attribute_table_index\(\) \)', 'ACCESS( &read, data.attribute_table_index() )', 1),
     (r'connection\.dequeue_indication_or_confirmation\(\)', 'dequeue_indication_or_confirmation( connection )', 1),
     # any other operation on the connection's notification queue from here would be a second writer of the 'outstanding indication' state (C11)
-    (r'connection\.(?:indication_confirmed|clear_indications_and_confirmations)\(\)', 'conn_queue_mutation( connection )', '*'),
+    (r'connection\.indication_confirmed\(\)', 'conn_indication_confirmed( connection )', '*'),
+    (r'connection\.clear_indications_and_confirmations\(\)', 'conn_queue_mutation( connection )', '*'),
     (r'connection\.(?:queue_indication|queue_notification)\( ', 'conn_queue_mutation2( connection, ', '*'),
     (r'client_configurations\( connection \)\.flags\( data\.client_characteristic_configuration_index\(\) \)', 'cfg_flags( data.client_characteristic_configuration_index() )', 1),
     (r'data\.attribute_table_index\(\)', 'data.attribute_table_index_', '+'),
@@ -125,7 +126,8 @@ struct pending_entry { enum notification_queue_entry_type first; size_t second; 
 struct notification_data { size_t attribute_table_index_; size_t client_characteristic_configuration_index_; };
 /* the link layer's notification queue (C11/C12), the type-level table characteristic -> value attribute (C10), the CCCD store (C09), the handle mapping (C04): abstract */
 int W_kind; size_t W_cfg_index, W_attr_index, W_ccc_index; uint16_t W_flags, W_handle; bool W_enc; int W_ps; int W_rc; size_t W_read_size;
-size_t G_fnd_arg, G_flags_arg, G_hbi_arg; size_t G_queue_mutations;
+size_t G_fnd_arg, G_flags_arg, G_hbi_arg; size_t G_queue_mutations, G_confirmed;
+static inline void conn_indication_confirmed(struct conn* c) { ++G_confirmed; }
 static inline void conn_queue_mutation(struct conn* c) { ++G_queue_mutations; }
 static inline bool conn_queue_mutation2(struct conn* c, size_t i) { ++G_queue_mutations; return true; }
 struct pending_entry dequeue_indication_or_confirmation(struct conn* c)
@@ -151,13 +153,15 @@ __CPROVER_ensures(G_acc_calls <= 1)
 __CPROVER_ensures(*out_size != 0 ==> (OUT_SENT && output[0] == (W_kind == notification_queue_entry_type_notification ? 0x1B : 0x1D) && output[1] == (W_handle & 0xff) && output[2] == (W_handle >> 8)
                                        && G_hbi_arg == W_attr_index && *out_size == 3 + G_acc_out_size))
 __CPROVER_ensures(OUT_SENT ==> *out_size != 0)
-/* C11: the only operation on the notification queue is the one dequeue; in particular the outstanding indication is not confirmed from here */
+/* C11: dequeuing an indication makes it the outstanding one (C12). If it is then NOT sent - not subscribed, value not readable - no confirmation will ever come: it is taken as confirmed, or every later
+   indication of this connection would wait for ever. In every other case the outstanding indication is not touched from here, nor is the queue in any other way */
+__CPROVER_ensures(G_confirmed == ((W_kind == notification_queue_entry_type_indication && *out_size == 0) ? 1 : 0))
 __CPROVER_ensures(G_queue_mutations == 0)
-__CPROVER_assigns(*out_size, __CPROVER_object_upto(output, W_out_size), G_fnd_arg, G_flags_arg, G_hbi_arg, G_queue_mutations,
+__CPROVER_assigns(*out_size, __CPROVER_object_upto(output, W_out_size), G_fnd_arg, G_flags_arg, G_hbi_arg, G_queue_mutations, G_confirmed,
                   G_acc)
 {{l2cap_output}}
 void h_l2cap_output(void) { SETUP; W_kind = nondet_int(); W_cfg_index = nondet_size(); W_attr_index = nondet_size(); W_ccc_index = nondet_size(); W_flags = nondet_u16(); W_handle = nondet_u16();
-  W_enc = nondet_bool(); W_ps = nondet_int(); __CPROVER_assume(W_ps >= 0 && W_ps <= 3); G_conn_sec.is_encrypted = W_enc; G_conn_sec.pairing_status = W_ps; G_acc_calls = 0; G_N = nondet_size(); G_queue_mutations = 0;
+  W_enc = nondet_bool(); W_ps = nondet_int(); __CPROVER_assume(W_ps >= 0 && W_ps <= 3); G_conn_sec.is_encrypted = W_enc; G_conn_sec.pairing_status = W_ps; G_acc_calls = 0; G_N = nondet_size(); G_queue_mutations = 0; G_confirmed = 0;
   l2cap_output(self, out, &os, &c); BT_CANARY(); }
 """
 UNITS.append(dict(name='l2cap_output', extracts={k: v for k, v in OUT_EX.items() if k not in ('access_to_att', 'check_handle', 'exchange', 'l2cap_input')},
